@@ -27,7 +27,9 @@ theorem ConstInv.closed (cfg : Cfg) (tbl : List Nat) : Closed0 (ConstInv cfg tbl
       exact ⟨by show (fdtPop s).fdtPkts = tbl; rw [fdtPop_fdtPkts]; exact h.1,
              by show (fdtPop s).cfg = cfg; rw [fdtPop_cfg]; exact h.2⟩
   fileStart := fun s _ _ now tk t _ h _ _ => by
-    unfold autoPublish; split <;> exact h
+    unfold autoPublish; split
+    · exact publishTry_elim (P := fun x => x.fdtPkts = tbl ∧ x.cfg = cfg) _ now h h
+    · exact h
   pkt := fun _ _ _ _ _ _ _ _ _ _ h _ _ _ _ _ => h
   done := fun s _ _ c now _ _ _ h _ _ _ _ _ =>
     ⟨by rw [transferDoneFile_fdtPkts]; exact h.1, by rw [transferDoneFile_cfg]; exact h.2⟩
@@ -70,9 +72,9 @@ theorem holds_mono {npk : Nat → Nat} {P Q : Mon → Nat → Prop} (hpq : ∀ m
     cases e <;> first | trivial | exact hpq _ _ this
 
 open Flute.Spec.Announce in
-theorem trace_holds (cfg : Cfg) (tbl : List Nat) (ops : List Op) :
+theorem trace_holds (cfg : Cfg) (tbl : List Nat) (ops : List Op) (hfit : cfg.mode = .being → cfg.fdtFits = true) :
     Holds (npkOf tbl) AnnP (trace cfg tbl ops) := by
-  have h := (ann_run cfg tbl ops).2.holds
+  have h := (ann_run cfg tbl ops hfit).2.holds
   rw [(const_run cfg tbl ops).1] at h
   exact h
 
